@@ -265,6 +265,12 @@ def concretize_type(t, reg: Registry):
         return typing.Annotated[concretize_type(t[1], reg), "verif-annotation"]
     if tag == "dc":
         return _dc_class(t, reg)
+    if tag == "discr":
+        from mashumaro.types import Discriminator
+        base = concretize_type(t[1], reg)
+        d = {o[0]: o[1] for o in t[2]}
+        return typing.Annotated[base, Discriminator(field=d.get("field"), include_subtypes=bool(d.get("include_subtypes", False)),
+                                                    include_supertypes=bool(d.get("include_supertypes", False)))]
     raise BridgeError(f"unsupported type term {t!r}")
 
 
